@@ -55,6 +55,9 @@ Definition range_list (r : Z * Z) : list Z :=
   map (fun k => fst r + Z.of_nat k) (seq 0 (Z.to_nat (snd r - fst r))).
 Global Instance iter_range : Iterable (Z * Z) Z := range_list.
 
+(** [xs.iter().enumerate()] *)
+Definition enumerate_z {A} (l : list A) : list (Z * A) := combine (map Z.of_nat (seq 0 (length l))) l.
+
 Global Instance iter_option {A} : Iterable (option A) A := fun o => match o with Some x => [x] | None => [] end.
 
 (** loops.  [for x in xs { .. }]: the `let mut` variables in scope are the state; `return v` inside the
